@@ -2,7 +2,7 @@
     Only statements here; proofs live in Proofs/. *)
 From Coq Require Import ZArith List Bool.
 From ACV Require Import Model.Bytes Model.ClaimCodec Model.Codec.
-From ACV Require Import Proofs.CodecP.
+From ACV Require Import Model.SerdeTree Proofs.CodecP Proofs.SerdeP.
 Import ListNotations.
 Local Open Scope nat_scope.
 
@@ -60,6 +60,37 @@ Theorem C19_pinned_bbs_pok_rejected_all : forall k, bbs_pok_len_ok_pinned (48 * 
 Proof. exact bbs_pok_pinned_rejects_every_encoding. Qed.
 Theorem C19_pinned_ps_ctx_rejected_all : forall n, ps_ctx_len_ok_pinned n = false.
 Proof. exact ps_ctx_pinned_rejects_every_encoding. Qed.
+
+(** serde data-model layer: decoding by name (JSON, CBOR) what the Serialize impl hands to a
+    human-readable or a binary serializer returns the object, for every claim, validator, claim
+    schema and credential schema (any number of claims, validators, blindable labels) *)
+Theorem C19_claim_type_roundtrip : forall hr t tr, ser_ctype hr t = Some tr -> de_ctype hr tr = Some t.
+Proof. exact ctype_rt. Qed.
+Theorem C19_claim_roundtrip : forall (is_utf8 : bytes -> bool) hr c tr, claim_ok c ->
+  ser_claim is_utf8 hr c = Some tr -> de_claim hr tr = Some c.
+Proof. exact claim_rt. Qed.
+Theorem C19_validator_roundtrip : forall (is_utf8 : bytes -> bool) hr v tr, validator_ok v ->
+  ser_validator is_utf8 hr v = Some tr -> de_validator hr tr = Some v.
+Proof. exact validator_rt. Qed.
+Theorem C19_claim_schema_roundtrip : forall (is_utf8 : bytes -> bool) hr c tr, claim_schema_ok c ->
+  ser_claim_schema is_utf8 hr c = Some tr -> de_claim_schema hr tr = Some c.
+Proof. exact claim_schema_rt. Qed.
+Theorem C19_credential_schema_roundtrip : forall (is_utf8 : bytes -> bool) hr s tr, cred_schema_ok s ->
+  ser_cred_schema is_utf8 hr s = Some tr -> de_cred_schema hr tr = Some s.
+Proof. exact cred_schema_rt. Qed.
+
+(** positional decoding (BARE) of a validator with optional bounds succeeds when no bound was
+    skipped, and fails or misreads otherwise (known finding bare-skipped-optional-field) *)
+Theorem C19_positional_roundtrip_if_no_skipped_field : forall (is_utf8 : bytes -> bool) hr v tr r,
+  match v with VLength _ _ | VRange _ _ => True | _ => False end ->
+  validator_skips v = false -> ser_validator is_utf8 hr v = Some tr -> pos_bounds (flat tr ++ r) = Some (v, r).
+Proof. exact pos_bounds_rt. Qed.
+Theorem C19_positional_skipped_field_refuted : forall (is_utf8 : bytes -> bool),
+  exists v tr, validator_skips v = true /\ ser_validator is_utf8 false v = Some tr /\ pos_bounds (flat tr) <> Some (v, []).
+Proof. exact pos_bounds_skipped_refuted. Qed.
+
+Print Assumptions C19_credential_schema_roundtrip.
+Print Assumptions C19_positional_skipped_field_refuted.
 
 Print Assumptions C19_ps_public_key_roundtrip.
 Print Assumptions C19_ps_public_key_canonical.
